@@ -81,6 +81,9 @@ def priority_signature(fn: Function) -> List[Rule]:
         if isinstance(st, ast.Assign) and isinstance(st.value, ast.Constant) and st.value.value is None:
             i += 1
             continue
+        if isinstance(st, ast.Assign) and isinstance(st.targets[0], ast.Name) and isinstance(st.value, ast.Attribute) and st.value.attr == "responses":
+            i += 1  # `responses = operation.responses`: an alias of the list that is searched
+            continue
         # for code in [..]: <first-match with == code>
         it = L.inline(st.iter) if isinstance(st, ast.For) else None
         if isinstance(st, ast.Assign) and isinstance(st.value, (ast.List, ast.Tuple)) and all(const_str(e) is not None for e in st.value.elts) \
